@@ -326,6 +326,25 @@ class C07(Property):
         "Flatland.C07Tree.Proofs.tree_flatten_compositional",
         "Flatland.C07Tree.Proofs.flattenTree_stale_differs",
         "Flatland.C07Tree.Proofs.C07_positional_unconditional_fails",
+        # the invariant along histories (every list-protocol and dict-protocol call, any element of the tree)
+        "Flatland.C07Tree.Proofs.Inv.dp_of_dps",
+        "Flatland.C07Tree.Proofs.Inv.seqStep_dps",
+        "Flatland.C07Tree.Proofs.Inv.mapStep_dps",
+        "Flatland.C07Tree.Proofs.Inv.stepAt_dps",
+        "Flatland.C07Tree.Proofs.Inv.hrun_dps",
+        "Flatland.C07Tree.Proofs.Inv.hrun_dp_prefix",
+        "Flatland.C07Tree.Proofs.Inv.construct_dps",
+        "Flatland.C07Tree.Proofs.Inv.fromDefaults_dps",
+        "Flatland.C07Tree.Proofs.Inv.setNode_dps",
+        "Flatland.C07Tree.Proofs.Inv.setDefault_dps",
+        "Flatland.C07Tree.Proofs.Inv.dp_not_framed",
+        "Flatland.C07Tree.Proofs.Inv.dp_not_node_level",
+        "Flatland.C07Tree.Proofs.flatten_positional_history",
+        "Flatland.C07Tree.Proofs.flatten_positional_after_every_step",
+        "Flatland.C07Tree.Proofs.flatten_flat_after_every_step",
+        "Flatland.C07Tree.Proofs.constructed_dps",
+        "Flatland.C07Tree.Proofs.c07_positional_histories",
+        "Flatland.C07Tree.Proofs.flatten_positional_run",
     ]
     trusted_base = [
         "scalar text (.u) and compound text are inputs of the flat model (env tables computed from the real classes in isolation; subjects of C04/C18)",
